@@ -144,8 +144,7 @@ def isGoSpace (c : Char) : Bool :=
 /-- `strings.TrimSpace(s) == ""` -/
 def isBlank (s : Str) : Bool := s.all isGoSpace
 
-def lowerChar (c : Char) : Char :=
-  if 'A' ≤ c ∧ c ≤ 'Z' then Char.ofNat (c.toNat + 32) else c
+def lowerChar (c : Char) : Char := c.toLower
 
 /-- `strings.ToLower` / the folding of `strings.EqualFold`, on ASCII strings (assumption: the `i`
     flag is only exercised on ASCII values, where both are ASCII lower-casing) -/
@@ -294,25 +293,32 @@ def emptyLoop : List Node → Bool
 
 /-! ## attribute selectors -/
 
-def attrMatch (key val : Str) (op : AttrOp) (ic : Bool) (l : Loc) : Bool :=
+/-- the test applied to one attribute value (the closures passed to `matchAttribute`) -/
+def valMatch (val : Str) (op : AttrOp) (ic : Bool) (s : Str) : Bool :=
   match op with
-  | .has => matchAttribute l.attrs key (fun _ => true)
-  | .eq => matchAttribute l.attrs key (fun s => eqVal s val ic)
-  | .ne => l.kind == .elem && !(l.attrs.any (fun a => a.1 == key && eqVal a.2 val ic))
-  | .incl => matchAttribute l.attrs key (fun s => matchInclude val s ic)
-  | .dash => matchAttribute l.attrs key (fun s =>
+  | .has => true
+  | .eq => eqVal s val ic
+  | .ne => eqVal s val ic
+  | .incl => matchInclude val s ic
+  | .dash =>
       if eqVal s val ic then true
       else if s.length ≤ val.length then false
-      else s[val.length]? == some '-' && eqVal (s.take val.length) val ic)
-  | .pre => matchAttribute l.attrs key (fun s =>
+      else s[val.length]? == some '-' && eqVal (s.take val.length) val ic
+  | .pre =>
       if isBlank s then false
-      else if ic then (lower val).isPrefixOf (lower s) else val.isPrefixOf s)
-  | .suf => matchAttribute l.attrs key (fun s =>
+      else if ic then (lower val).isPrefixOf (lower s) else val.isPrefixOf s
+  | .suf =>
       if isBlank s then false
-      else if ic then (lower val).isSuffixOf (lower s) else val.isSuffixOf s)
-  | .sub => matchAttribute l.attrs key (fun s =>
+      else if ic then (lower val).isSuffixOf (lower s) else val.isSuffixOf s
+  | .sub =>
       if isBlank s then false
-      else if ic then containsSub (lower s) (lower val) else containsSub s val)
+      else if ic then containsSub (lower s) (lower val) else containsSub s val
+
+/-- `attrSelector.Match`; `!=` is `attributeNotEqualMatch` -/
+def attrMatch (key val : Str) (op : AttrOp) (ic : Bool) (l : Loc) : Bool :=
+  match op with
+  | .ne => l.kind == .elem && !(matchAttribute l.attrs key (valMatch val .ne ic))
+  | op => matchAttribute l.attrs key (valMatch val op ic)
 
 /-! ## Match -/
 
